@@ -2,7 +2,7 @@
    This file: the CURRENT transaction metadata and the history tables (table level). The point-in-time read
    queries (which table/column/feature they test) are exercised by the read tie; see C17 notes in DESIGN.md. *)
 From Coq Require Import List ZArith String Bool Lia.
-From LV Require Import Base.Util Ledger.Types Ledger.Core Ledger.Invariants Ledger.ReplayProofs Ledger.Reads Ledger.IkProofs Ledger.HistProofs Ledger.AHistProofs Ledger.MetaFilterProofs.
+From LV Require Import Base.Util Ledger.Types Ledger.Core Ledger.Invariants Ledger.ReplayProofs Ledger.Reads Ledger.IkProofs Ledger.HistProofs Ledger.AHistProofs Ledger.MetaFilterProofs Ledger.ScriptProofs.
 Import ListNotations.
 Open Scope Z_scope.
 
@@ -150,8 +150,53 @@ Proof.
 Qed.
 Print Assumptions C17_volumes_filter_history_off.
 
+(* METADATA SET BY SCRIPTS AND AT CREATION.  A create whose Numscript calls set_tx_meta (smd) / set_account_meta (samd) while the
+   request carries metadata (md) and accountMetadata (amd) (input IScript; script_op is the operation record).
+   When it commits: the request overrode no key the script had set to a non-empty value, and the transaction carries the
+   script's metadata with the request's merged over it *)
+Theorem C17_script_tx_metadata : forall f now s ps ts ref md amd force smd samd ik s' lid tid,
+  step f now s (script_op ps ts ref md amd force smd samd ik false) = SR s' (ROk lid tid false) ->
+  (forall k v w, mget smd k = Some v -> In (k, w) md -> v = ""%string) /\
+  exists t, s_txs s' = s_txs s ++ [t] /\ tid = Some (t_id t) /\ t_postings t = ps /\ t_meta t = mmerge smd md.
+Proof. exact script_create_tx_metadata. Qed.
+Print Assumptions C17_script_tx_metadata.
+
+(* every account of the postings or named by either metadata map has a row afterwards, whose metadata is the previous one
+   (if the account existed) with [script_acc_meta samd amd]'s entry for it merged over *)
+Theorem C17_script_account_metadata : forall f now s ps ts ref md amd force smd samd ik s' lid tid a,
+  step f now s (script_op ps ts ref md amd force smd samd ik false) = SR s' (ROk lid tid false) ->
+  In a (involved_accounts ps (script_acc_meta samd amd)) ->
+  exists y, find_account (s_accounts s') a = Some y /\
+            a_meta y = match find_account (s_accounts s) a with
+                       | Some x => mmerge (a_meta x) (amd_get (script_acc_meta samd amd) a)
+                       | None => amd_get (script_acc_meta samd amd) a
+                       end.
+Proof. exact script_create_account_metadata. Qed.
+Print Assumptions C17_script_account_metadata.
+
+(* ... and that entry is, key by key, the request's value where the request has the key for that account, the script's
+   otherwise: a key the script sets on A survives a request entry for A that does not mention it, and the request wins
+   on a common key (the request's maps are JSON objects: one entry per account, one per key) *)
+Theorem C17_script_account_keys : forall samd amd a k,
+  NoDup (map fst amd) -> NoDup (map fst (amd_get amd a)) ->
+  mget (amd_get (script_acc_meta samd amd) a) k =
+  match mget (amd_get amd a) k with Some v => Some v | None => mget (amd_get samd a) k end.
+Proof. exact script_acc_meta_keys. Qed.
+Print Assumptions C17_script_account_keys.
 
 Local Open Scope string_scope.
+(* the script sets tier=gold and k=s on bank, the request carries category=treasury and k=r for bank: bank ends with the three keys, k=r *)
+Example C17_script_example :
+  let f := {| f_moves := true; f_pcev := true; f_acc_hist := true; f_tx_hist := true; f_hash := true |} in
+  let p := {| p_src := "world"; p_dst := "bank"; p_asset := "USD"; p_amt := 100 |} in
+  let o := script_op [p] None "" [("channel", "web")] [("bank", [("category", "treasury"); ("k", "r")])] false
+                     [("category", "refund")] [("bank", [("tier", "gold"); ("k", "s")])] "" false in
+  let s := run f [(1, o)] in
+  map t_meta (s_txs s) = [[("category", "refund"); ("channel", "web")]] /\
+  map (fun a => (a_addr a, a_meta a)) (s_accounts s) = [("world", []); ("bank", [("tier", "gold"); ("k", "r"); ("category", "treasury")])] /\
+  map ah_meta (s_ahist s) = [[]; [("tier", "gold"); ("k", "r"); ("category", "treasury")]].
+Proof. vm_compute. repeat split; reflexivity. Qed.
+
 Example C17_example :
   let f := {| f_moves := true; f_pcev := true; f_acc_hist := true; f_tx_hist := true; f_hash := true |} in
   let p := {| p_src := "world"; p_dst := "bob"; p_asset := "USD"; p_amt := 5 |} in
